@@ -278,7 +278,13 @@ impl AsmParser {
             }
         };
 
-        debug_assert!(self.toks.next().is_none(), "expected end of line");
+        if let Some(extra) = self.toks.next() {
+            return Err(error::parse_generic_unexpected(
+                self.src,
+                "end of instruction",
+                extra,
+            ));
+        }
 
         Ok(stmt)
     }
